@@ -259,6 +259,18 @@ def ctor_cases():
                                 return WormGear(name='g', n_starts=1, inertia_moment=J1, helix_angle=Angle(v, 'deg'), pressure_angle=pa)
                             return WormWheel(name='g', n_teeth=30, inertia_moment=J1, helix_angle=Angle(v, 'deg'), pressure_angle=pa)
                         out.append((f'{cls}.helix_angle={v} deg @alpha={alpha} deg written in {u} ({how})', mk4, exp))
+    # several parameters wrong at once: every combination of {valid, null, negative} over the motor's four quantities
+    for cw, ct, c0, cm in itertools.product(('ok', 'zero', 'neg'), repeat=4):
+        val = {'ok': 1.0, 'zero': 0.0, 'neg': -1.0}
+        exp = 'ok' if (cw, ct, c0, cm) == ('ok', 'ok', 'ok', 'ok') else ('either' if (cw, ct, cm) == ('ok', 'ok', 'ok') and c0 == 'zero' else 'ValueError')
+        out.append((f'DCMotor.combination w0:{cw} Tmax:{ct} i0:{c0} imax:{cm}',
+                    motor(no_load_speed=AngularSpeed(1000 * val[cw], 'rpm'), maximum_torque=Torque(2 * val[ct], 'Nm'),
+                          no_load_electric_current=Current(0.1 * val[c0], 'A'), maximum_electric_current=Current(2 * val[cm], 'A')), exp))
+    for cw, ct in itertools.product(('ok', 'zero', 'neg'), repeat=2):
+        val = {'ok': 1.0, 'zero': 0.0, 'neg': -1.0}
+        out.append((f'DCMotor.combination w0:{cw} Tmax:{ct} (no current data)',
+                    motor(no_load_speed=AngularSpeed(1000 * val[cw], 'rpm'), maximum_torque=Torque(2 * val[ct], 'Nm')),
+                    'ok' if (cw, ct) == ('ok', 'ok') else 'ValueError'))
     # duty cycle
     for v, exp in ((1, 'ok'), (-1, 'ok'), (0.3, 'ok'), (math.nextafter(1.0, 2), 'ValueError'), (math.nextafter(-1.0, -2), 'ValueError'),
                    (1.5, 'ValueError'), (-7, 'ValueError'), (float('nan'), 'ValueError')):
